@@ -315,6 +315,7 @@ def tab_cli(run):
     tab_cli_get_arg(run, pof)
     # 1d. unknown format name -> error; leftover parameters -> error
     tab_cli_rejections(run, pof)
+    tab_cli_params_no_duplicate(run, pof)
 
     # 2. options: documented <-> registered <-> read
     regs = getopts_registrations(mk)
@@ -425,6 +426,7 @@ def tab_cli(run):
     tab_cli_derive_name(run)
     tab_cli_derive_when(run, pc)
     tab_cli_distinct_outputs(run, pc)
+    tab_cli_derive_not_any_input(run, pc)
     # 5. print xor write per group
     tab_cli_groups(run)
 
@@ -968,6 +970,85 @@ def tab_cli_color_everywhere(run, R="TAB-cli"):
                     bad.append(f.loc(t["span"]))
     run.check(n >= 2 and not bad, R, R + "|color|every-print", "-", "every print of the diagnostics takes its colour setting from the command line (%d site(s))" % n,
               "the driver prints diagnostics with colours switched on unconditionally (%s): `--color=off prog.asm -f bogus` still prints ANSI escapes for the error about the command line" % ", ".join(bad))
+
+
+def _reach_avoiding(f, start, avoid):
+    seen, work = set(), [start]
+    while work:
+        x = work.pop()
+        if x in seen or x in avoid:
+            continue
+        seen.add(x)
+        work.extend(f.succs(x))
+    return seen
+
+
+def tab_cli_params_no_duplicate(run, pof, R="TAB-cli"):
+    """a format parameter given twice is rejected: every insertion into the parameter map hands back the previous value, and that
+    answer is tested (a previous value -> error + Err) on every path from the insertion to a successful return.  Otherwise only one
+    of the values is validated and `base:3,base:16` is accepted"""
+    from rules_sym import option_tests
+    ins = [(bi, t) for bi, t in pof.calls() if re.search(r"HashMap::<.*>::insert$", t.get("callee") or "") and "String" in " ".join(t.get("arg_tys") or [])]
+    # the tested value is the answer of an insertion: directly, or the named local the insertions write their answer to
+    names = {"var:%s" % pof.local_name(t["dest"]["l"]) for _, t in ins if not t["dest"]["p"] and pof.local_name(t["dest"]["l"])}
+    tests = [x for x in option_tests(pof, lambda e: ("HashMap" in e and "insert(" in e) or e in names)]
+    good = []
+    for b, some, none in tests:
+        reg = T.dominated_region(pof, some, b)
+        if report_error_in_region(pof, reg) and err_return_in_region(pof, reg):
+            good.append(b)
+    oks = set(ok_return_blocks(pof))
+    # the other form: the map is asked `contains_key` first and the insertion lies on the `not there yet` edge
+    absent_edges = []
+    for bi, t in pof.calls():
+        if re.search(r"HashMap::<.*>::contains_key", t.get("callee") or ""):
+            bt = T.bool_test(pof, t)
+            if bt:
+                reg = T.reach_following_consts(pof, bt[0])
+                if report_error_in_region(pof, reg) and err_return_in_region(pof, reg):
+                    absent_edges.append((bt[2], bt[1]))
+    bad = []
+    for bi, t in ins:
+        if t.get("target") is None:
+            continue
+        if any(pof.edge_dominates(b, e, bi) for b, e in absent_edges):
+            continue
+        if not good or (_reach_avoiding(pof, t["target"], set(good)) & oks):
+            bad.append(pof.loc(t["span"]))
+    run.check(bool(ins) and not bad, R, R + "|params|no-duplicate", pof.loc(),
+              "a format parameter given twice is reported and rejected (%d insertion(s) into the parameter map, each tested for a previous value)" % len(ins),
+              ("parse_output_format keeps only the last value of a parameter given twice (insertion(s) at %s are not tested for a previous value): `-f annotated,base:3,base:16` is accepted although base:3 is outside the documented set" % ", ".join(bad)) if ins else "mechanism not found: the insertion of format parameters into a map")
+
+
+def tab_cli_derive_not_any_input(run, pc, R="TAB-cli"):
+    """a derived output name is compared with every input file name, and is stored only on the `equals none of them` edge"""
+    from rules_sym import deep as _deep
+    cands = [pc] + [h for h in (run.prog.fn(t.get("resolved") or "") for _, t in pc.calls() if t.get("resolved_local")) if h is not None and h.id.startswith("driver::")]
+    ok, found = False, False
+    for f in cands:
+        for cb, ct in f.calls():
+            if (ct.get("resolved") or "") != "driver::derive_output_filename":
+                continue
+            found = True
+            dl = ct["dest"]["l"]
+            stores = [(bi, st) for bi, si, st in f.stmts() if st["k"] == "assign" and st["place"]["p"] and isinstance(st["place"]["p"][-1], dict)
+                      and st["place"]["p"][-1].get("name") == "output_filename" and value_depends_on(f, st["rv"].get("op") or (st["rv"].get("ops") or [None])[0], dl)]
+            for bi, t in f.calls():
+                c = t.get("callee") or ""
+                if not re.search(r"(::contains|::any|PartialEq::eq|PartialEq::ne)$", re.sub(r"::<[^>]*>", "", c)):
+                    continue
+                ds = [_deep(f, a, 8) for a in t["args"]]
+                if not any(value_depends_on(f, a, dl) for a in t["args"]) or not any(".input_filenames" in d for d in ds):
+                    continue
+                bt = T.bool_test(f, t)
+                if bt is None:
+                    continue
+                same, differ = (bt[0], bt[1]) if not c.endswith("ne") else (bt[1], bt[0])
+                reg = T.reach_following_consts(f, same)
+                if report_error_in_region(f, reg) and err_return_in_region(f, reg) and stores and all(f.edge_dominates(bt[2], differ, sb) for sb, _ in stores):
+                    ok = True
+    run.check(ok, R, R + "|derive|not-any-input", pc.loc(), "a derived output name is compared with all input file names and stored only when it equals none",
+              "parse_command stores a derived output name without comparing it with every input file name: `customasm main.asm main.bin` derives `main.bin` from the first input and overwrites the second input with the output" if found else "mechanism not found: the call of derive_output_filename")
 
 
 def tab_cli_distinct_outputs(run, pc, R="TAB-cli"):
